@@ -140,7 +140,7 @@ impl Prop for C17 {
     const ID: &'static str = "C17";
     fn rule() -> String {
         "a C01 bigWig and a generated BED region list (1..200 rows; regions inside one value, straddling values and gaps, between values, beyond all data, zero length; 3..8 columns) on chromosomes present in the file; \
-         LIBRARY: stats_for_bed_item and bigwig_average_over_bed against the model (size, covered bases, sum, mean0 = sum/size, mean = sum/bases, min, max; NaN mean/min/max when nothing is covered; for zero-length regions only size, bases and sum); \
+         LIBRARY: stats_for_bed_item and bigwig_average_over_bed against the model (size, covered bases, sum, mean0 = sum/size, mean = sum/bases, min, max; NaN mean/min/max when nothing is covered; for zero-length regions size, bases, sum, and NaN mean / min / max); \
          TOOL: bigwigaverageoverbed with name mode {default column 4, column n, interval, none}, --min-max, -t in 1..16: one row per input row in input order, expected name column, numeric fields within the printed 3 decimals, byte-identical output for every -t; \
          bigwigvaluesoverbed: one row per region with `size` values, each covered base equal to the stored value (uncovered: 0 or NaN). \
          non-trivial = more regions than threads AND a region straddling >= 2 values and a gap; distinct = distinct case JSON"
@@ -260,6 +260,12 @@ impl Prop for C17 {
                 if !minmax_ok(got.max, w.max, &w.zl, false) {
                     return Err(format!("{}: max {}, model says {}", what, got.max, w.max));
                 }
+            } else if !(got.mean.is_nan() && got.min.is_nan() && got.max.is_nan()) {
+                // an empty region covers nothing: NaN mean over covered bases and NaN extrema
+                return Err(format!(
+                    "{}: the region is empty, nothing is covered, but mean / min / max = {} / {} / {} (NaN expected)",
+                    what, got.mean, got.min, got.max
+                ));
             }
             obs.evals += 1;
         }
@@ -380,6 +386,8 @@ impl Prop for C17 {
                 if case.min_max && w.zl.is_empty() && (!close3(num(st[5]), w.min) || !close3(num(st[6]), w.max)) {
                     return Err(format!("output row {:?}: min/max, expected {:.3} / {:.3}", l, w.min, w.max));
                 }
+            } else if !num(st[4]).is_nan() || (case.min_max && !(num(st[5]).is_nan() && num(st[6]).is_nan())) {
+                return Err(format!("output row {:?}: the region is empty, mean over covered bases and min/max must be NaN", l));
             }
         }
         for (t, text) in outputs.iter().skip(1) {
